@@ -20,7 +20,7 @@ def run(chk, failed):
                 "incident's id/start survive every refresh that still lists the group; exactly one close per send-close module at the "
                 "closing OK; no close otherwise) runs on every call log of the implementation; non-trivial = the history contains at "
                 "least two incidents of one (cluster, group); distinct by the case line")
-    G.check_body(chk, failed, "C13", G.oracle_c13, ["groups", "groups", "groups", "clock"], 24000, 600000, CORR)
+    G.check_body(chk, failed, "C13", G.oracle_c13, ["groups", "groups", "groups", "clock"], 36000, 600000, CORR)
     chk.assumptions += [
         "uuid.NewRandom is fresh (the model draws 1,2,3..; the probe numbers event ids by first appearance in the incident record)",
         "the steps of a history are handled one at a time: responses of one group do not overlap (responseLoop starts one goroutine per response; two in-flight responses of the same group race on the unlocked record) and a refresh does not overlap a response of its cluster (they exclude each other through clusterGroups.Lock); every interleaving of whole steps is a history",
